@@ -162,7 +162,8 @@ class BaseValidator(object):
             finally:
                 for check in self.cid.check_map.values():
                     check.cleanup()
-            self._is_closed = True
+                # Mark as closed even if a check failed so a second close() does nothing.
+                self._is_closed = True
 
 
 class Reader(BaseValidator):
